@@ -93,3 +93,47 @@ pub fn twin_events(case: &Value, out: &mut Vec<Value>) {
     out.push(a);
     out.push(b);
 }
+
+fn fmt_of(src: &str) -> Value {
+    match catch_unwind(AssertUnwindSafe(|| RoocParser::new(src.to_string()).format())) {
+        Err(p) => json!({"out":"panic","text":panic_msg(p)}),
+        Ok(Err(e)) => json!({"out":"err","text":e.to_string()}),
+        Ok(Ok(t)) => json!({"out":"ok","text":t}),
+    }
+}
+
+/// Model of a text with all exactness problems folded into `out`.
+fn model_side(src: &str) -> Value {
+    let m = model_of_text(src);
+    let mut v = json!({"out": m["out"]});
+    if m["out"] == "ok" {
+        for k in ["sense", "obj", "cons", "sdom", "modeltext"] {
+            v[k] = m[k].clone();
+        }
+    } else {
+        v["why"] = m.get("errtext").or(m.get("why")).cloned().unwrap_or(json!(""));
+    }
+    v
+}
+
+/// C11: {id, text, tokens?}: format, format again, compile original and formatted.
+pub fn format_event(case: &Value) -> Value {
+    let mut ev = case.clone();
+    let src = case["text"].as_str().unwrap();
+    let parse_ok = catch_unwind(AssertUnwindSafe(|| RoocParser::new(src.to_string()).parse().is_ok())).unwrap_or(false);
+    ev["parses"] = json!(parse_ok);
+    let f1 = fmt_of(src);
+    ev["f1"] = f1.clone();
+    if f1["out"] == "ok" {
+        let ftext = f1["text"].as_str().unwrap();
+        ev["f2"] = fmt_of(ftext);
+        ev["b"] = model_side(ftext);
+        ev["fparses"] = json!(catch_unwind(AssertUnwindSafe(|| RoocParser::new(ftext.to_string()).parse().is_ok())).unwrap_or(false));
+    } else {
+        ev["f2"] = json!({"out":"none","text":""});
+        ev["b"] = json!({"out":"none"});
+        ev["fparses"] = json!(false);
+    }
+    ev["a"] = model_side(src);
+    ev
+}
